@@ -411,3 +411,52 @@ func Harness_C15_ending_survives_a_failed_write() {
 	verifAssert(!busy && len(w.fx.store.msgs) == rows+1 && t.currentCall != nil, "a-new-call-can-be-started-afterwards")
 	verifReach("end")
 }
+
+// ---- a party's session stops draining its queue (dead connection) while the topic keeps sending: the topic
+// drops the stuck session, which ends the call - once: one finalizing message, no call left, and the message
+// that was being delivered keeps its own number.
+func Harness_C15_stuck_party_is_dropped_once() {
+	w := verifCallSetup()
+	t := w.t
+	verifAssume(w.state != 0 && globals.iceServers != nil)
+	// the stuck party: the originator's session A1, or (active call) the callee's B1; its queue is full
+	stuck := 0
+	if w.state == 2 && verifNondetBool("calleeStuck") {
+		stuck = 2
+	}
+	ss := w.sess[stuck]
+	for len(ss.send) < cap(ss.send) {
+		ss.send <- &ServerComMessage{Ctrl: &MsgServerCtrl{Code: 200}}
+	}
+	oldRows, oldLast := len(w.fx.store.msgs), t.lastID
+	verifMaxRows = oldRows + 6
+	verifMaxRowsLabel = "call-ends-exactly-once: no runaway finalizing messages"
+	// the other user's second session (not a party) publishes an ordinary message
+	from := 3 - stuck // B2 when A1 is stuck, A2 when B1 is stuck
+	if stuck == 0 {
+		from = 3
+	} else {
+		from = 1
+	}
+	uid := w.uids[from]
+	peer := w.a
+	if uid == w.a {
+		peer = w.b
+	}
+	msg := &ClientComMessage{Pub: &MsgClientPub{Id: "p1", Topic: peer.UserId(), Content: "hello"}, Id: "p1",
+		AsUser: uid.UserId(), AuthLvl: int(auth.LevelAuth), Original: peer.UserId(), RcptTo: t.name,
+		Timestamp: types.TimeNow(), sess: w.sess[from], init: true}
+	t.handleClientMsg(msg)
+	rows := w.fx.store.msgs[oldRows:]
+	verifAssert(t.currentCall == nil, "dropping-a-party-ends-the-call")
+	_, still := t.sessions[ss]
+	verifAssert(!still, "stuck-session-detached")
+	verifAssert(len(rows) == 2, "one-message-and-one-ending")
+	if len(rows) == 2 {
+		verifAssert(rows[0].SeqId == oldLast+1 && rows[1].SeqId == oldLast+2, "numbers-unique-and-gapless")
+		verifAssert(rows[0].Content == "hello" && rows[1].Head["webrtc"] == "disconnected", "the-ending-follows-the-message")
+	}
+	verifAssert(t.lastID == oldLast+len(rows), "topic-counter-matches-the-stored-rows")
+	verifAssert(!verifTimerActive(t.callEstablishmentTimer), "nothing-times-a-finished-call")
+	verifReach("end")
+}
